@@ -456,5 +456,10 @@ MUTANTS = [
     M("B7-2-factor-3", ["C13"], (CD, "1u64 << (4 * rank_index + suit_index)", "1u64 << (3 * rank_index + suit_index)"), base="B7-2"),
     M("B7-2-swapped", ["C13"], (CD, "1u64 << (4 * rank_index + suit_index)", "1u64 << (4 * suit_index + rank_index)"), base="B7-2"),
     M("benign-D5-5-mask-shift", ["C13"], base="D5-5", benign=True),
+    M("benign-F3-3-computed-flush-weight", ["C01", "C07", "C08"], base="F3-3", benign=True),
+    M("F3-3-unreversed", ["C01", "C07"], (MH, "1 << (12 - u8::from(card.rank()))", "1 << u8::from(card.rank())"), base="F3-3"),
+    M("F3-3-off-by-one", ["C01", "C07"], (MH, "1 << (12 - u8::from(card.rank()))", "1 << (13 - u8::from(card.rank()))"), base="F3-3"),
+    M("F3-3-underflow", ["C08"], (MH, "1 << (12 - u8::from(card.rank()))", "1 << (11 - u8::from(card.rank()))"), base="F3-3"),
+    M("F3-3-wide-shift", ["C08"], (MH, "1 << (12 - u8::from(card.rank()))", "1 << (28 - u8::from(card.rank()))"), base="F3-3"),
     M("D5-5-shift-3", ["C13"], (CD, "ACE_MASK << (4 * u32::from(u8::from(card.0)))", "ACE_MASK << (3 * u32::from(u8::from(card.0)))"), base="D5-5"),
 ]
